@@ -76,7 +76,7 @@ def domain(shape, V, strict_slopes=True):
         if "cdd_beta" in F:
             c += [V["cdd_beta"] > 0 if strict_slopes else V["cdd_beta"] >= 0]
     if shape == "hdd_tidd_cdd_smooth":
-        c += [V["hdd_k"] >= 0, V["hdd_k"] <= 1, V["cdd_k"] >= 0, V["cdd_k"] <= 1]
+        c += [V["hdd_k"] >= 0, V["cdd_k"] >= 0]  # final-fit bounds can exceed 1; the fractions are normalised when they sum to > 1
     elif "hdd_k" in F:
         c += [V["hdd_k"] >= 0]
     elif "cdd_k" in F:
@@ -104,7 +104,7 @@ _get_smooth_coeffs = rebuild(bm.get_smooth_coeffs, np=symnp)
 
 
 def smooth_contract(hdd_bp, pct_h, cdd_bp, pct_c, kh, kc):
-    """contract of get_smooth_coeffs for hdd_bp <= cdd_bp, pct in [0,1] (proved on the real function by
+    """contract of get_smooth_coeffs for hdd_bp <= cdd_bp, pct >= 0 (proved on the real function by
     the */lemma case): returns [hdd_bp + kh, kh, cdd_bp - kc, kc] with"""
     tiny = z3.And(pct_h < rv(MIN_PCT_K), pct_c < rv(MIN_PCT_K))
     return z3.And(kh >= 0, kc >= 0, kh + kc <= cdd_bp - hdd_bp,
@@ -137,7 +137,7 @@ def sym_smooth_coeffs():
     """the real get_smooth_coeffs on proxies (lemma case)."""
     eng = E.cur()
     a, ph, b, pc_ = Z("hdd_bp"), Z("hdd_k"), Z("cdd_bp"), Z("cdd_k")
-    for c in [a <= b, ph >= 0, ph <= 1, pc_ >= 0, pc_ <= 1]:
+    for c in [a <= b, ph >= 0, pc_ >= 0]:
         eng.assume(c)
     r = _get_smooth_coeffs(SReal(a), SReal(ph), SReal(b), SReal(pc_))
     return list(r)
